@@ -10,6 +10,8 @@
 //!   O7 both decoders agree         O8 every fragmentation (<= 3 cuts) yields the same frames
 //!   O9 well-formed values re-decode to themselves under both public encoders
 //!   O10 replies of the executor are well-formed (no CR/LF in simple strings / errors)
+//! plus a deterministic list of size-boundary frames (arrays / bulk strings around 2^k up to
+//! 2^17+1 or 2^18+1 elements) judged against the value written by rule (see big_specs).
 use bytes::BytesMut;
 use rand::Rng as _;
 use redis_sim::redis::{Command, CommandExecutor, RespCodec, RespParser, RespValue, RespValueZeroCopy};
@@ -670,6 +672,401 @@ fn deep_run(depth: usize, inner: &[u8]) -> (String, String, String, String, bool
     (c, p, cs, ps, out.status.success())
 }
 
+// ---------------------------------------------------------------- size boundaries
+/// A large value described by a rule (printed as such for Coq): Rep(n, e) = array of n
+/// copies of e, Fill(len, b) = bulk string of len bytes b.
+#[derive(Clone, Debug)]
+enum VG {
+    V(V),
+    Rep(usize, Box<VG>),
+    /// array: the listed elements, then n copies of e
+    HRep(Vec<VG>, usize, Box<VG>),
+    Arr(Vec<VG>),
+    Fill(usize, u8),
+}
+fn vg_term(g: &VG) -> String {
+    match g {
+        VG::V(v) => format!("(VV {})", v_term(v)),
+        VG::Rep(n, e) => format!("(VRep {} {})", n, vg_term(e)),
+        VG::HRep(h, n, e) => format!("(VHRep {} {} {})", clist(h.iter(), vg_term), n, vg_term(e)),
+        VG::Arr(l) => format!("(VArr {})", clist(l.iter(), vg_term)),
+        VG::Fill(n, b) => format!("(VFill {} {})", n, b),
+    }
+}
+fn vg_value(g: &VG) -> V {
+    match g {
+        VG::V(v) => v.clone(),
+        VG::Rep(n, e) => V::A(vec![vg_value(e); *n]),
+        VG::HRep(h, n, e) => {
+            let mut l: Vec<V> = h.iter().map(vg_value).collect();
+            l.extend(vec![vg_value(e); *n]);
+            V::A(l)
+        }
+        VG::Arr(l) => V::A(l.iter().map(vg_value).collect()),
+        VG::Fill(n, b) => V::B(vec![*b; *n]),
+    }
+}
+/// the frame of a value, written by rule here (NOT with the encoders under test)
+fn frame_of(v: &V, out: &mut Vec<u8>) {
+    match v {
+        V::S(s) => {
+            out.push(b'+');
+            out.extend_from_slice(s);
+            out.extend_from_slice(b"\r\n");
+        }
+        V::E(s) => {
+            out.push(b'-');
+            out.extend_from_slice(s);
+            out.extend_from_slice(b"\r\n");
+        }
+        V::I(n) => out.extend_from_slice(format!(":{}\r\n", n).as_bytes()),
+        V::NB => out.extend_from_slice(b"$-1\r\n"),
+        V::B(d) => {
+            out.extend_from_slice(format!("${}\r\n", d.len()).as_bytes());
+            out.extend_from_slice(d);
+            out.extend_from_slice(b"\r\n");
+        }
+        V::NA => out.extend_from_slice(b"*-1\r\n"),
+        V::A(l) => {
+            out.extend_from_slice(format!("*{}\r\n", l.len()).as_bytes());
+            for x in l {
+                frame_of(x, out);
+            }
+        }
+    }
+}
+fn vg_frame(g: &VG, out: &mut Vec<u8>) {
+    match g {
+        VG::V(v) => frame_of(v, out),
+        VG::Rep(n, e) => {
+            out.extend_from_slice(format!("*{}\r\n", n).as_bytes());
+            let mut one = Vec::new();
+            vg_frame(e, &mut one);
+            for _ in 0..*n {
+                out.extend_from_slice(&one);
+            }
+        }
+        VG::HRep(h, n, e) => {
+            out.extend_from_slice(format!("*{}\r\n", h.len() + n).as_bytes());
+            for x in h {
+                vg_frame(x, out);
+            }
+            let mut one = Vec::new();
+            vg_frame(e, &mut one);
+            for _ in 0..*n {
+                out.extend_from_slice(&one);
+            }
+        }
+        VG::Arr(l) => {
+            out.extend_from_slice(format!("*{}\r\n", l.len()).as_bytes());
+            for x in l {
+                vg_frame(x, out);
+            }
+        }
+        VG::Fill(n, b) => {
+            out.extend_from_slice(format!("${}\r\n", n).as_bytes());
+            out.resize(out.len() + *n, *b);
+            out.extend_from_slice(b"\r\n");
+        }
+    }
+}
+/// number of array elements anywhere in the value / longest bulk: decides whether the
+/// (quadratic, stack-hungry) Coq model is evaluated on the frame
+fn vg_elems(g: &VG) -> usize {
+    match g {
+        VG::V(_) => 1,
+        VG::Rep(n, e) => 1 + n * vg_elems(e),
+        VG::HRep(h, n, e) => 1 + h.iter().map(vg_elems).sum::<usize>() + n * vg_elems(e),
+        VG::Arr(l) => 1 + l.iter().map(vg_elems).sum::<usize>(),
+        VG::Fill(_, _) => 1,
+    }
+}
+fn vg_maxbulk(g: &VG) -> usize {
+    match g {
+        VG::V(_) => 0,
+        VG::Rep(_, e) => vg_maxbulk(e),
+        VG::HRep(h, _, e) => h.iter().map(vg_maxbulk).max().unwrap_or(0).max(vg_maxbulk(e)),
+        VG::Arr(l) => l.iter().map(vg_maxbulk).max().unwrap_or(0),
+        VG::Fill(n, _) => *n,
+    }
+}
+fn bhash(b: &[u8]) -> u64 {
+    let mut h: u64 = 0;
+    for x in b {
+        h = (h * 257 + *x as u64 + 1) & 0xFFFF_FFFF;
+    }
+    h
+}
+const PING: &[u8] = b"*1\r\n$4\r\nPING\r\n";
+
+enum BigKind {
+    /// a complete frame (+ optionally one more frame behind it)
+    Complete(VG, bool),
+    /// the frame of the value without its last `missing` bytes
+    Prefix(VG, usize),
+    /// an announced length with little or no data behind it
+    Raw(Vec<u8>),
+}
+struct Big {
+    name: String,
+    kind: BigKind,
+}
+
+fn el(k: usize) -> VG {
+    match k {
+        0 => VG::V(V::I(1)),             // ":1\r\n"
+        1 => VG::V(V::B(vec![])),        // "$0\r\n\r\n"
+        2 => VG::V(V::B(b"k".to_vec())), // "$1\r\nk\r\n"
+        _ => VG::V(V::S(b"OK".to_vec())),
+    }
+}
+/// a request `DEL k k k ...` with n arguments in all
+fn request(n: usize) -> VG {
+    VG::HRep(vec![VG::V(V::B(b"DEL".to_vec()))], n - 1, Box::new(el(2)))
+}
+
+/// the deterministic list of size-boundary cases; level 1 = quick, 2 = thorough
+fn big_specs(level: u64) -> Vec<Big> {
+    let mut v: Vec<Big> = Vec::new();
+    if level == 0 {
+        return v;
+    }
+    let mut pows: Vec<usize> = Vec::new(); // 2^k - 1, 2^k, 2^k + 1
+    let top = if level >= 2 { 18 } else { 17 };
+    for k in 2..=top {
+        let p = 1usize << k;
+        pows.extend_from_slice(&[p - 1, p, p + 1]);
+    }
+    let quick_counts: Vec<usize> = vec![0, 1, 1023, 1024, 1025, 4095, 4096, 4097, 65535, 65536, 65537, 131072, 131073];
+    let counts: Vec<usize> = if level >= 2 { let mut c = vec![0, 1, 2, 3]; c.extend(pows.iter().copied()); c } else { quick_counts };
+    // flat arrays of short elements, followed by one more frame
+    for &n in &counts {
+        v.push(Big { name: format!("array of {} x \":1\\r\\n\" + PING", n), kind: BigKind::Complete(VG::Rep(n, Box::new(el(0))), true) });
+    }
+    let other: Vec<usize> = if level >= 2 { counts.clone() } else { vec![4097, 65537] };
+    for &n in &other {
+        v.push(Big { name: format!("array of {} x \"$0\\r\\n\\r\\n\"", n), kind: BigKind::Complete(VG::Rep(n, Box::new(el(1))), n % 2 == 1) });
+    }
+    if level >= 2 {
+        for &n in &[4097usize, 65536, 65537, 131073] {
+            v.push(Big { name: format!("array of {} x \"+OK\\r\\n\" (reply shape)", n), kind: BigKind::Complete(VG::Rep(n, Box::new(el(3))), false) });
+        }
+    }
+    // requests: DEL with n - 1 keys
+    let reqs: Vec<usize> = if level >= 2 { vec![4096, 4097, 65535, 65536, 65537, 65538, 131073] } else { vec![65537] };
+    for &n in &reqs {
+        v.push(Big { name: format!("request DEL with {} arguments in all + PING", n), kind: BigKind::Complete(request(n), true) });
+    }
+    // nested once: outer small / inner huge, and outer huge / inner small
+    let nest: Vec<usize> = if level >= 2 { vec![4097, 65535, 65536, 65537, 131073] } else { vec![65537] };
+    for &n in &nest {
+        v.push(Big {
+            name: format!("[:1, array of {} x \":1\\r\\n\", $1 k] + PING", n),
+            kind: BigKind::Complete(VG::Arr(vec![el(0), VG::Rep(n, Box::new(el(0))), el(2)]), true),
+        });
+        v.push(Big {
+            name: format!("array of {} x [\":1\\r\\n\"] + PING", n),
+            kind: BigKind::Complete(VG::Rep(n, Box::new(VG::Arr(vec![el(0)]))), true),
+        });
+    }
+    // arrays that miss their last element / last byte, or have only a few elements
+    let short: Vec<usize> = if level >= 2 { vec![1025, 4097, 65536, 65537, 65538, 131073] } else { vec![4097, 65537] };
+    for &n in &short {
+        v.push(Big { name: format!("array announcing {} elements, last one missing", n), kind: BigKind::Prefix(VG::Rep(n, Box::new(el(0))), 4) });
+        v.push(Big { name: format!("array announcing {} elements, last byte missing", n), kind: BigKind::Prefix(VG::Rep(n, Box::new(el(1))), 1) });
+    }
+    for s in ["*65537\r\n:1\r\n:1\r\n:1\r\n", "*131073\r\n", "*536870913\r\n$0\r\n\r\n", "*2\r\n*65537\r\n:1\r\n"] {
+        v.push(Big { name: format!("announced only: {:?}", s), kind: BigKind::Raw(s.as_bytes().to_vec()) });
+    }
+    // bulk strings: complete around the same boundaries, announced-only around 512 MiB, 2^31, 2^32
+    let blens: Vec<usize> = if level >= 2 {
+        let mut c = vec![0, 1, 2, 3];
+        c.extend(pows.iter().copied());
+        c.extend_from_slice(&[(1 << 20) - 1, 1 << 20, (1 << 20) + 1]);
+        c
+    } else {
+        vec![0, 1, 4095, 4096, 4097, 16383, 16384, 16385, 65535, 65536, 65537, 131072, 131073]
+    };
+    for &n in &blens {
+        v.push(Big { name: format!("bulk string of {} bytes{}", n, if n % 2 == 1 { " + PING" } else { "" }), kind: BigKind::Complete(VG::Fill(n, b'x'), n % 2 == 1) });
+    }
+    for &n in &[65537usize, 131073] {
+        v.push(Big { name: format!("bulk string announcing {} bytes, trailing CRLF missing", n), kind: BigKind::Prefix(VG::Fill(n, b'x'), 2) });
+        v.push(Big { name: format!("[bulk string of {} bytes, :1] + PING", n), kind: BigKind::Complete(VG::Arr(vec![VG::Fill(n, b'\r'), el(0)]), true) });
+    }
+    for n in [536870911u64, 536870912, 536870913, 2147483647, 2147483648, 4294967295, 4294967296, 4294967297] {
+        for data in ["", "hello\r\n"] {
+            v.push(Big { name: format!("bulk string announcing {} bytes, {} bytes present", n, data.len()), kind: BigKind::Raw(format!("${}\r\n{}", n, data).into_bytes()) });
+        }
+    }
+    v
+}
+
+fn top_count(v: &V) -> String {
+    match v {
+        V::A(l) => format!("array of {} elements", l.len()),
+        V::B(d) => format!("bulk string of {} bytes", d.len()),
+        other => v_term(other),
+    }
+}
+fn o_brief(o: &O) -> String {
+    match o {
+        O::Done(v, n) => format!("Done: {}, consumed {}", top_count(v), n),
+        other => o_show(other),
+    }
+}
+fn frames_brief(r: &(Vec<V>, O, Vec<u8>)) -> String {
+    let f: Vec<String> = r.0.iter().take(6).map(top_count).collect();
+    format!("{} frame(s) [{}{}], then {}, {} byte(s) left", r.0.len(), f.join("; "), if r.0.len() > 6 { "; ..." } else { "" }, o_brief(&r.1), r.2.len())
+}
+
+/// O1, O2, O4, O5, O7, O8, O9 on one complete size-boundary frame; returns the Coq term
+fn big_complete(cx: &mut Ctx, name: &str, g: &VG, trail: bool, verbose: bool) -> String {
+    let v = vg_value(g);
+    let mut f = Vec::new();
+    vg_frame(g, &mut f);
+    let flen = f.len();
+    let mut input = f.clone();
+    if trail {
+        input.extend_from_slice(PING);
+    }
+    let ping = V::A(vec![V::B(b"PING".to_vec())]);
+    let want = O::Done(v.clone(), flen);
+    let (c, ca) = run_codec(&input);
+    let (p, pa) = run_parser(&input);
+    let mut sums = Vec::new();
+    for (dn, o, a) in [("RespCodec::parse", &c, ca), ("RespParser::parse", &p, pa)] {
+        cx.checks += 3;
+        if *o != want {
+            cx.fail(
+                &format!("{} does not decode a large frame to the value it encodes (frame boundary / element count / content)", dn),
+                json!({"frame": name, "frame_len": flen, "followed_by": if trail { "PING" } else { "nothing" }, "expected": o_brief(&want), "decoded": o_brief(o)}),
+            );
+        }
+        if a > 64 * input.len() + 256 {
+            cx.fail(&format!("{} requests an allocation proportional to an unvalidated length field", dn), json!({"frame": name, "input_len": input.len(), "largest_single_allocation_request_bytes": a}));
+        }
+        let (n, same) = match o {
+            O::Done(w, n) => (*n, *w == v),
+            _ => (0, false),
+        };
+        sums.push((n, same));
+    }
+    // O7
+    cx.checks += 1;
+    if c != p {
+        cx.fail("the two decoders disagree on the same bytes", json!({"frame": name, "RespCodec": o_brief(&c), "RespParser": o_brief(&p)}));
+    }
+    // the stream: the frame, then PING, nothing left
+    let mut want_frames = vec![v.clone()];
+    if trail {
+        want_frames.push(ping);
+    }
+    let want_stream = (want_frames, O::Inc, Vec::new());
+    let mut plans: Vec<(String, Vec<&[u8]>)> = vec![("whole".to_string(), vec![&input[..]])];
+    for sz in [65536usize, 8192, 4093] {
+        if input.len() > sz {
+            plans.push((format!("{}-byte reads", sz), input.chunks(sz).collect()));
+        }
+    }
+    if flen >= 2 {
+        plans.push(("all but the last byte of the frame, then the rest".to_string(), vec![&input[..flen - 1], &input[flen - 1..]]));
+        plans.push(("header line + 1 byte, then the rest".to_string(), {
+            let h = input.iter().position(|x| *x == b'\n').unwrap_or(0) + 2;
+            let h = h.min(input.len());
+            vec![&input[..h], &input[h..]]
+        }));
+    }
+    for (pn, frags) in &plans {
+        cx.checks += 2;
+        let gc = feed_codec(frags);
+        if gc != want_stream {
+            cx.fail(
+                "RespCodec::parse: a stream with a large frame is not cut into its frames",
+                json!({"frame": name, "frame_len": flen, "followed_by": if trail { "PING" } else { "nothing" }, "fed": pn, "expected": frames_brief(&want_stream), "got": frames_brief(&gc)}),
+            );
+            break;
+        }
+        // RespParser re-parses from the start of the buffer on every read: quadratic for small reads
+        if frags.len() <= 40 {
+            let gp = feed_parser(frags);
+            if gp != want_stream {
+                cx.fail(
+                    "RespParser::parse: a stream with a large frame is not cut into its frames",
+                    json!({"frame": name, "frame_len": flen, "fed": pn, "expected": frames_brief(&want_stream), "got": frames_brief(&gp)}),
+                );
+                break;
+            }
+        }
+    }
+    // O4 at chosen cut points
+    let mut cuts = vec![flen - 1, flen.saturating_sub(2), flen / 2, flen.saturating_sub(5)];
+    cuts.retain(|k| *k < flen);
+    cuts.dedup();
+    for k in cuts {
+        cx.checks += 2;
+        for (dn, o) in [("RespCodec::parse", run_codec(&input[..k]).0), ("RespParser::parse", run_parser(&input[..k]).0)] {
+            if o != O::Inc {
+                cx.fail(&format!("{}: a strict prefix of a large frame is not answered with 'need more bytes'", dn), json!({"frame": name, "frame_len": flen, "prefix_len": k, "answer": o_brief(&o)}));
+            }
+        }
+    }
+    // O9: the reply direction - both public encoders produce this frame
+    cx.checks += 2;
+    let ec = enc_codec(&v);
+    if ec != f {
+        cx.fail("RespCodec::encode does not produce the frame of a large value", json!({"frame": name, "frame_len": flen, "encoded_len": ec.len()}));
+    }
+    let ep = enc_parser(&v);
+    if ep != f {
+        cx.fail("RespParser::encode does not produce the frame of a large value", json!({"frame": name, "frame_len": flen, "encoded_len": ep.len()}));
+    }
+    if verbose {
+        println!(" frame: {} ({} bytes{})\n RespCodec::parse  -> {}\n RespParser::parse -> {}", name, flen, if trail { " + PING" } else { "" }, o_brief(&c), o_brief(&p));
+    }
+    let run = vg_elems(g) <= 1100 && vg_maxbulk(g) <= 20000;
+    format!(
+        "(KG {} {} {} {} {} {} {} {} {})",
+        vg_term(g),
+        chex(if trail { PING } else { b"" }),
+        cbool(run),
+        bhash(&f),
+        flen,
+        sums[0].0,
+        sums[1].0,
+        cbool(sums[0].1),
+        cbool(sums[1].1)
+    )
+}
+
+fn big_prefix(cx: &mut Ctx, name: &str, g: &VG, missing: usize, verbose: bool) -> String {
+    let mut f = Vec::new();
+    vg_frame(g, &mut f);
+    let k = f.len() - missing.min(f.len());
+    let input = &f[..k];
+    let (c, ca) = run_codec(input);
+    let (p, pa) = run_parser(input);
+    for (dn, o, a) in [("RespCodec::parse", &c, ca), ("RespParser::parse", &p, pa)] {
+        cx.checks += 2;
+        if *o != O::Inc {
+            cx.fail(&format!("{}: an incomplete large frame is not answered with 'need more bytes'", dn), json!({"frame": name, "bytes_present": k, "bytes_of_complete_frame": f.len(), "answer": o_brief(o)}));
+        }
+        if a > 64 * input.len() + 256 {
+            cx.fail(&format!("{} requests an allocation proportional to an unvalidated length field", dn), json!({"frame": name, "input_len": input.len(), "largest_single_allocation_request_bytes": a}));
+        }
+    }
+    // and completing it gives the frame
+    cx.checks += 1;
+    let gc = feed_codec(&[input, &f[k..]]);
+    if gc != (vec![vg_value(g)], O::Inc, Vec::new()) {
+        cx.fail("RespCodec::parse: an incomplete large frame completed by a second read is not decoded to its value", json!({"frame": name, "got": frames_brief(&gc)}));
+    }
+    if verbose {
+        println!(" frame: {} ({} of {} bytes)\n RespCodec::parse  -> {}\n RespParser::parse -> {}", name, k, f.len(), o_brief(&c), o_brief(&p));
+    }
+    format!("(KT {} {} {} {})", vg_term(g), k, o_term(&c), o_term(&p))
+}
+
 fn main() {
     let a: Vec<String> = std::env::args().collect();
     if a.len() > 1 && a[1] == "--deep-child" {
@@ -684,11 +1081,14 @@ fn main() {
     let exh = args.get("exh", 3) as u32; // cases 0..cum(exh+1) are ALL strings of length <= exh
     let sweep = args.get("sweep", 4) as u32; // oracle-only exhaustive sweep up to this length
     let n_exh = cum(exh + 1);
+    // cases n_exh .. n_exh + bigs.len() are the size-boundary frames (deterministic list)
+    let bigs = big_specs(args.get("big", 1));
+    let n_big = bigs.len() as u64;
     const SWEEP_BASE: u64 = 1 << 40; // case ids >= SWEEP_BASE address strings of the sweep
     let mut out = Out::new(&args.out, "C15", args.shards, HEADER);
     out.nontrivial_rule = format!(
-        "cases 0..{} are ALL byte strings of length <= {} over the 12-symbol near-grammar alphabet {{+ - : $ * 0 1 9 CR LF a 0xFF}} (exhaustive; each also compared with the Coq model); the property oracles O1-O7 are additionally evaluated on ALL strings of length <= {} over that alphabet (oracle-only sweep, counted in impl_property_checks). Remaining cases by class: near-grammar random strings of length {}..12, uniformly random bytes, mutations of valid encodings (length digits changed, negative / huge / i64-boundary lengths, lone CR, deleted and inserted bytes), valid multi-frame streams with ALL fragmentations of <= 3 cuts (streams up to 26 bytes; 300 sampled cut sets plus byte-by-byte above), RespValue trees through both public encoders and back through both decoders, nesting depth 1..100000 (decoded in a child process on a 2 MiB stack when deeper than 64), executor replies to commands carrying CR LF (names, arguments, Lua status/error replies). Non-trivial = the input is not decided by its first byte alone (some decoder consumed a CRLF-terminated line or the result is Incomplete); distinct by input bytes.",
-        n_exh, exh, sweep, exh + 1
+        "cases 0..{} are ALL byte strings of length <= {} over the 12-symbol near-grammar alphabet {{+ - : $ * 0 1 9 CR LF a 0xFF}} (exhaustive; each also compared with the Coq model); the property oracles O1-O7 are additionally evaluated on ALL strings of length <= {} over that alphabet (oracle-only sweep, counted in impl_property_checks). The next {} cases are the size-boundary frames (deterministic list, --big level): complete arrays of 2^k-1 / 2^k / 2^k+1 short elements up to 2^17+1 (2^18+1 in the thorough tier) flat, nested once (outer small / inner huge, outer huge / inner small) and as DEL requests, bulk strings of the same lengths (to 2^20+1 in thorough), each followed by a PING frame or by nothing, fed whole and in 65536- / 8192- / 4093-byte reads and split at the last byte / after the header, re-encoded by both public encoders; the same arrays with the last element or byte missing; lengths announced without data around 2^16, 2^17, 512 MiB, 2^31, 2^32. They are judged by the direct oracles against the value written by rule; Coq rebuilds the value from the rule, checks well-formedness, that encode gives the bytes that were fed (length, hash) and the consumed counts, and evaluates the model itself when the frame has <= 1100 elements and bulks <= 20000 bytes (beyond that the model's answer is given by theorems C15_encode_decode / C15_parse_prefix_incomplete). Remaining cases by class: near-grammar random strings of length {}..12, uniformly random bytes, mutations of valid encodings (length digits changed, negative / huge / i64-boundary lengths, lone CR, deleted and inserted bytes), valid multi-frame streams with ALL fragmentations of <= 3 cuts (streams up to 26 bytes; 300 sampled cut sets plus byte-by-byte above), RespValue trees through both public encoders and back through both decoders, nesting depth 1..100000 (decoded in a child process on a 2 MiB stack when deeper than 64), executor replies to commands carrying CR LF (names, arguments, Lua status/error replies). Non-trivial = the input is not decided by its first byte alone (some decoder consumed a CRLF-terminated line or the result is Incomplete); distinct by input bytes.",
+        n_exh, exh, sweep, n_big, exh + 1
     );
     out.count(&format!("size_of_RespValueZeroCopy:{}", std::mem::size_of::<RespValueZeroCopy>()));
     out.count(&format!("size_of_RespValue:{}", std::mem::size_of::<RespValue>()));
@@ -719,6 +1119,33 @@ fn main() {
             if verbose {
                 println!("case {}: input {:?} (hex {})\n RespCodec::parse  -> {}\n RespParser::parse -> {}", i, String::from_utf8_lossy(&b), hex(&b), o_show(&c), o_show(&p));
             }
+        } else if i < n_exh + n_big {
+            // ---------------- size boundaries of every length-carrying construct
+            let b = &bigs[(i - n_exh) as usize];
+            out.count("class:size_boundary");
+            if verbose {
+                println!("case {}: size boundary", i);
+            }
+            match &b.kind {
+                BigKind::Complete(g, trail) => {
+                    term = big_complete(&mut cx, &b.name, g, *trail, verbose);
+                    out.count(if vg_elems(g) > 65536 || vg_maxbulk(g) > 65536 { "size_boundary:complete_gt_65536" } else { "size_boundary:complete_le_65536" });
+                }
+                BigKind::Prefix(g, missing) => {
+                    term = big_prefix(&mut cx, &b.name, g, *missing, verbose);
+                    out.count("size_boundary:incomplete");
+                }
+                BigKind::Raw(bytes) => {
+                    let (c, ca, p, _pa) = oracle(&mut cx, bytes, Some(&mut rng), true);
+                    term = format!("(KP {} {} {} {})", chex(bytes), o_term(&c), ca, o_term(&p));
+                    out.count("size_boundary:announced_only");
+                    if verbose {
+                        println!(" input {:?}\n RespCodec::parse  -> {} (largest allocation request {} bytes)\n RespParser::parse -> {}", String::from_utf8_lossy(bytes), o_show(&c), ca, o_show(&p));
+                    }
+                }
+            }
+            canon = format!("big:{}", b.name);
+            nontrivial = true;
         } else {
             let class = rng.gen_range(0..100);
             if class < 62 {
